@@ -75,6 +75,9 @@ def run(repo, rep, tier):
     from . import c06
     L.borrow(repo, rep, "R04.7", "C06", lambda r, p: c06._loop(r, p),
              ("regex:",), minimum=2)
+    # a node's settings (its default marker, its escape set) reach the
+    # engine that compiles its expression
+    L.engine_fields_rule(repo, rep, "R04.1")
     L.state_rule(repo, rep)
 
 
@@ -123,10 +126,16 @@ def _tables(repo, rep):
                   construct="override:" + sub.name)
     xe = repo.cls(TALES + "ExistsExpr")
     ex2 = _names_tuple(xe.attrs.get("exceptions"))
+    # (documented in reference.rst: AttributeError, LookupError, TypeError,
+    # NameError -- KeyError is a LookupError)
     rep.check(ex2 is not None and set(ex2) <= CAUGHT and
+              {"AttributeError", "LookupError", "TypeError",
+               "NameError"} <= set(ex2) and
               "Exception" not in ex2 and "BaseException" not in ex2,
               "R04.1", xe.qualname + ".exceptions",
-              "exists: swallows lookup-type exceptions only",
+              "exists: swallows the documented lookup-type exceptions "
+              "(AttributeError, LookupError, TypeError, NameError) and "
+              "lookup-type exceptions only",
               construct="exists-exceptions", detail=str(ex2))
     # the prefix pattern: optional white space, a lower-case word, ':'
     mp = repo.module("chameleon.tales").assigns.get("match_prefix")
